@@ -26,34 +26,52 @@ from harness.core import Result
 LEVEL = "exploration"
 RULES = {
     "session": "exhaustive: every sequence of 1..3 (thorough: 4) calls over nine operations issued from inside a websocket_session view (the first raising call ends "
-    "the view) x three server scripts: the events reaching the server must form a legal application sequence; non-trivial = the view ended with an exception",
+    "the view) x three server scripts, x three scripts in which the view parks and is cancelled by a thrown CancelledError, x two scripts in which the server's send "
+    "raises on the accept / first data frame: the events reaching the server must form a legal application sequence; non-trivial = the view ended with an exception, "
+    "or was cancelled after it had forwarded something",
     "exh": "exhaustive (incl. scripts in which the server's send raises on the close frame): every call history of length <= n over 15 wrapper operations (accept, accept(subprotocol), receive, "
     "receive_text, receive_bytes, iter_text(2), iter_bytes(2), send_text, send_bytes, close, close(code), raw send of "
     "accept/send/close/garbage) x server scripts (connect, 0..k text/bytes frames, then disconnect or silence), driven "
-    "without an event loop; non-trivial = history contains an illegal call or a disconnect is delivered before the last call",
+    "without an event loop (a call that parks is cancelled and the history goes on); non-trivial = history contains an illegal call, a disconnect is delivered "
+    "before the last call, or calls follow a cancelled call / a failed send",
     "long": "Hypothesis: histories up to 14 calls, scripts up to 6 frames; same rule",
     "guided": "Hypothesis: histories that begin with an accept and are biased to receive operations so that frames and "
     "the disconnect are actually consumed; same rule",
-    "denial": "denial paths: WebsocketDenialResponse with/without the websocket.http.response extension over several response "
-    "classes, request_response given a websocket scope, websocket_session given an http scope; non-trivial = extension present "
-    "or a streaming response",
+    "denial": "denial paths: WebsocketDenialResponse with/without the websocket.http.response extension (also: other extensions only, "
+    "no response object) over several response classes, request_response given a websocket scope (the http view must not run), "
+    "websocket_session given an http scope, and a slow streaming denial while the server delivers connect + disconnect (no "
+    "receive after the disconnect); non-trivial = extension present or a streaming response",
+    "ext": "exhaustive: every call history of length <= 3 over 23 operations (the 15 of `exh` + empty-payload sends, close(code, reason), "
+    "raw denial-response / http events, two persistent iterators) x server scripts outside the `exh` family: empty frames, frames "
+    "carrying both keys (one None), disconnect codes 1000/1005/1006/4000 with/without/None reason, receive calls that park and are "
+    "cancelled (coroutine closed or CancelledError thrown) before the connect event, a frame or the disconnect, and a server send "
+    "that raises or parks on the n-th forwarded event; histories continue after a cancelled call; same rule as `exh`",
+    "iters": "exhaustive: histories of length <= 4 (thorough: 5) over nine operations including `next` on one persistent iter_text() and "
+    "one persistent iter_bytes() iterator, so that an iterator is used across accept / close / disconnect / cancellation; same rule",
+    "guided2": "Hypothesis: guided histories over the 23 operations and the whole extended script family; same rule",
 }
 ASSUMPTIONS = [
     "a typed receive that meets a frame of the other kind, or the connect event, may raise anything or return None; only the "
     "forwarded-sequence, no-receive-after-disconnect and state clauses apply to that call",
     "the server always delivers websocket.connect first",
+    "a call that is cancelled while it waits for the server (receive parked, send parked) must let the cancellation propagate; the "
+    "event it was forwarding counts as forwarded (attempted), an event it was waiting for is not consumed",
+    "an iterator that met a frame of the other kind is in an unknown state: later `next` calls on it are only judged by the "
+    "forwarded-sequence, no-receive-after-disconnect and state clauses",
 ]
-
-ORDER = {WebSocketState.CONNECTING: 0, WebSocketState.CONNECTED: 1, WebSocketState.DISCONNECTED: 2}
-
 
 class _Never:
     def __await__(self):
         yield self
 
 
+PARK = "__park__"  # script item: the receive call that meets it parks and is cancelled; the next call goes on
+STOP = "<iterator exhausted>"
+
+
 class Server:
-    def __init__(self, script):
+    def __init__(self, script, spec=None):
+        spec = spec or {}
         self.script = [dict(e) for e in script]
         self.pos = 0
         self.delivered = []  # events handed to the application
@@ -61,8 +79,10 @@ class Server:
         self.receive_calls = 0
         self.disconnect_delivered = False
         self.late_receive = False
-        self.fail_close = False
+        self.fail_close = bool(spec.get("fail_close"))
         self.close_failed = False
+        self.fail_at = spec.get("fail_at")  # index of the forwarded event on which the server's send fails
+        self.fail_how = spec.get("fail_how", "raise")  # "raise": OSError; "park": never completes (caller is cancelled)
 
     async def receive(self):
         self.receive_calls += 1
@@ -71,6 +91,9 @@ class Server:
         if self.pos < len(self.script):
             ev = dict(self.script[self.pos])
             self.pos += 1
+            if ev["type"] == PARK:
+                await _Never()
+                raise core.HarnessError("resumed a parked receive")
             self.delivered.append(dict(ev))
             if ev["type"] == "websocket.disconnect":
                 self.disconnect_delivered = True
@@ -83,9 +106,17 @@ class Server:
         if self.fail_close and message.get("type") == "websocket.close" and not self.close_failed:
             self.close_failed = True
             raise OSError("connection lost while sending the close frame (injected)")
+        if self.fail_at is not None and len(self.forwarded) - 1 == self.fail_at:
+            if self.fail_how == "park":
+                await _Never()
+                raise core.HarnessError("resumed a parked send")
+            raise OSError("connection lost while sending (injected)")
 
 
-def drive(coro):
+def drive(coro, cancel="close"):
+    """Run a coroutine of the wrapper without an event loop.  If it parks (the scripted server has
+    nothing to deliver / never completes a send) it is cancelled: `close` = the coroutine is closed,
+    `throw` = asyncio.CancelledError is thrown into it, as a task's cancel() does."""
     try:
         coro.send(None)
     except StopIteration as e:
@@ -94,20 +125,60 @@ def drive(coro):
         raise
     except BaseException as e:  # noqa: BLE001
         return ("raise", e)
+    if cancel == "throw":
+        try:
+            coro.throw(asyncio.CancelledError())
+        except asyncio.CancelledError:
+            return ("blocked", None)
+        except StopIteration as e:
+            return ("swallowed-cancel", e.value)
+        except core.HarnessError:
+            raise
+        except BaseException as e:  # noqa: BLE001
+            return ("raise", e)
+        coro.close()
+        return ("swallowed-cancel", None)
     coro.close()
     return ("blocked", None)
 
 
+def _frame(ch, i):
+    if ch == "T":
+        return {"type": "websocket.receive", "text": f"t{i}"}
+    if ch == "B":
+        return {"type": "websocket.receive", "bytes": b"b%d" % i}
+    if ch == "t":  # empty text frame
+        return {"type": "websocket.receive", "text": ""}
+    if ch == "b":  # empty binary frame
+        return {"type": "websocket.receive", "bytes": b""}
+    # both keys present, the other one None (ASGI: "if missing, it is equivalent to None"; hypercorn does this)
+    if ch == "U":
+        return {"type": "websocket.receive", "bytes": None, "text": f"u{i}"}
+    if ch == "C":
+        return {"type": "websocket.receive", "bytes": b"c%d" % i, "text": None}
+    if ch == "u":
+        return {"type": "websocket.receive", "bytes": None, "text": ""}
+    if ch == "c":
+        return {"type": "websocket.receive", "bytes": b"", "text": None}
+    if ch == ".":
+        return {"type": PARK}
+    raise core.HarnessError(f"frame spec {ch!r}")
+
+
 def build_script(spec):
-    """spec: {"frames": "TBT", "end": "disconnect"|"silence"}"""
-    script = [{"type": "websocket.connect"}]
+    """spec: {"frames": "TB.t", "end": "disconnect"|"silence", optional "park_connect": bool, "code": int,
+    "reason": str|None (key present in the event only if present in the spec)}"""
+    script = []
+    if spec.get("park_connect"):
+        script.append({"type": PARK})
+    script.append({"type": "websocket.connect"})
     for i, ch in enumerate(spec["frames"]):
-        if ch == "T":
-            script.append({"type": "websocket.receive", "text": f"t{i}"})
-        else:
-            script.append({"type": "websocket.receive", "bytes": b"b%d" % i})
+        script.append(_frame(ch, i))
     if spec["end"] == "disconnect":
-        script.append({"type": "websocket.disconnect", "code": 1001})
+        ev = {"type": "websocket.disconnect", "code": spec.get("code", 1001)}
+        if "reason" in spec:
+            ev["reason"] = spec["reason"]
+        script.append(ev)
     return script
 
 
@@ -117,24 +188,44 @@ RAW = {
     "raw_close": {"type": "websocket.close", "code": 1000},
     "raw_garbage": {"type": "websocket.bogus"},
     "raw_http": {"type": "http.response.start", "status": 200},
+    # the statement's application sequence is "accept or close first": the wrapper has no denial-response support,
+    # so these are illegal in every state
+    "raw_denial_start": {"type": "websocket.http.response.start", "status": 403, "headers": []},
+    "raw_denial_body": {"type": "websocket.http.response.body", "body": b"denied"},
 }
 OPS = [
     "accept", "accept_sub", "receive", "receive_text", "receive_bytes", "iter_text", "iter_bytes",
     "send_text", "send_bytes", "close", "close_code", "raw_accept", "raw_send", "raw_close", "raw_garbage",
 ]
+EXT_OPS = OPS + [
+    "send_text_empty", "send_bytes_empty", "close_reason", "raw_denial_start", "raw_denial_body", "raw_http",
+    "itT_next", "itB_next",
+]
+ITER_OPS = ["accept", "itT_next", "itB_next", "close", "receive", "receive_text", "send_text", "iter_text", "raw_close"]
+SEND_PAYLOAD = {
+    "send_text": {"type": "websocket.send", "text": "hello"},
+    "send_bytes": {"type": "websocket.send", "bytes": b"hello"},
+    "send_text_empty": {"type": "websocket.send", "text": ""},
+    "send_bytes_empty": {"type": "websocket.send", "bytes": b""},
+}
+CLOSE_ARGS = {"close": (), "close_code": (4000,), "close_reason": (1001, "bye")}
 
 
 class Model:
     """Reference automaton of wrapper + scripted server."""
 
-    def __init__(self, script, fail_close=False):
+    def __init__(self, script, spec=None):
+        spec = spec or {}
         self.script = script
         self.cs = 0
         self.as_ = 0
         self.pos = 0
         self.forwarded = []
-        self.fail_close = fail_close
+        self.fail_close = bool(spec.get("fail_close"))
         self.close_failed = False
+        self.fail_at = spec.get("fail_at")
+        self.fail_how = spec.get("fail_how", "raise")
+        self.iters = {"text": "new", "bytes": "new"}  # persistent iterators: new / live / done / unknown
 
     def receive(self):
         if self.cs == 2:
@@ -143,6 +234,9 @@ class Model:
             return ("blocked", None)
         ev = self.script[self.pos]
         self.pos += 1
+        if ev["type"] == PARK:
+            # the call parks and is cancelled: nothing was delivered, no state may have moved
+            return ("blocked", None)
         if self.cs == 0:
             self.cs = 1
         elif ev["type"] == "websocket.disconnect":
@@ -163,6 +257,10 @@ class Model:
             # the connection is over and nothing may be forwarded afterwards
             self.close_failed = True
             return ("fault", None)
+        if self.fail_at is not None and len(self.forwarded) - 1 == self.fail_at:
+            # likewise for any other frame: the event was handed to the server (attempted), the call fails or is
+            # cancelled; handing the same kind of event over again (accept, accept) would be an illegal sequence
+            return ("blocked" if self.fail_how == "park" else "fault", None)
         return ("ok", None)
 
     def typed(self, kind):
@@ -179,10 +277,21 @@ class Model:
             return ("disconnect", None, False)
         if kind in ev and ev[kind] is not None:
             return ("ok", ev[kind], False)
+        if kind in ev:
+            # a frame of the other kind that carries this key with None: the typed receive may well return that None,
+            # so an iterator goes on to the next event
+            return ("anynone", None, True)
         return ("any", None, True)
 
+    def resync(self, server):
+        """After a call whose result is accepted variation: take over what the wrapper consumed."""
+        self.pos = server.pos
+        self.forwarded = [dict(m) for m in server.forwarded]
+        types = [m["type"] for m in server.delivered]
+        self.cs = 2 if "websocket.disconnect" in types else 1 if types else 0
+
     def step(self, op):
-        """-> dict(outcome in ok/raise/blocked/any, value=..., check_value=bool)"""
+        """-> dict(outcome in ok/raise/blocked/fault/any/anyblock, value=..., check_value=bool)"""
         if op in ("accept", "accept_sub"):
             if self.cs == 0:
                 out, _ = self.receive()
@@ -197,6 +306,8 @@ class Model:
             out, payload, _ = self.typed("text" if op == "receive_text" else "bytes")
             if out == "disconnect":
                 return {"outcome": "raise", "exc": WebSocketDisconnect}
+            if out == "anynone":
+                out = "any"
             return {"outcome": out, "value": payload, "check_value": out == "ok"}
         if op in ("iter_text", "iter_bytes"):
             vals = []
@@ -206,41 +317,63 @@ class Model:
                     return {"outcome": "ok", "value": vals, "check_value": True}
                 if out == "any":
                     return {"outcome": "any"}
+                if out == "anynone":
+                    return {"outcome": "anyblock"}
                 if out != "ok":
                     return {"outcome": out}
                 vals.append(payload)
             return {"outcome": "ok", "value": vals, "check_value": True}
-        if op == "send_text":
-            return {"outcome": self.send({"type": "websocket.send", "text": "hello"})[0]}
-        if op == "send_bytes":
-            return {"outcome": self.send({"type": "websocket.send", "bytes": b"hello"})[0]}
-        if op in ("close", "close_code"):
+        if op in ("itT_next", "itB_next"):
+            # `next` on ONE iter_text() / iter_bytes() iterator that lives as long as the history
+            kind = "text" if op == "itT_next" else "bytes"
+            st_ = self.iters[kind]
+            if st_ == "done":
+                return {"outcome": "ok", "value": STOP, "check_value": True}
+            if st_ == "unknown":
+                return {"outcome": "anyblock"}
+            out, payload, _ = self.typed(kind)
+            if out == "ok":
+                self.iters[kind] = "live"
+                return {"outcome": "ok", "value": payload, "check_value": True}
+            if out == "disconnect":
+                self.iters[kind] = "done"
+                return {"outcome": "ok", "value": STOP, "check_value": True}
+            if out in ("any", "anynone"):
+                self.iters[kind] = "unknown"  # raised inside the generator (finished) or yielded None (alive)
+                return {"outcome": "any"}
+            self.iters[kind] = "done"  # an exception / the cancellation went through the generator frame
+            return {"outcome": out}
+        if op in SEND_PAYLOAD:
+            return {"outcome": self.send(SEND_PAYLOAD[op])[0]}
+        if op in CLOSE_ARGS:
             if self.as_ == 2:
                 return {"outcome": "ok"}
-            code = 4000 if op == "close_code" else 1000
-            return {"outcome": self.send({"type": "websocket.close", "code": code, "reason": None})[0]}
+            args = CLOSE_ARGS[op]
+            code = args[0] if args else 1000
+            reason = args[1] if len(args) > 1 else None
+            return {"outcome": self.send({"type": "websocket.close", "code": code, "reason": reason})[0]}
         if op in RAW:
             return {"outcome": self.send(RAW[op])[0]}
         raise core.HarnessError(op)
 
 
-def real_step(ws, op):
+def real_step(ws, op, cancel="close", its=None):
     if op == "accept":
-        return drive(ws.accept())
+        return drive(ws.accept(), cancel)
     if op == "accept_sub":
-        return drive(ws.accept("sp"))
+        return drive(ws.accept("sp"), cancel)
     if op == "receive":
-        return drive(ws.receive())
+        return drive(ws.receive(), cancel)
     if op == "receive_text":
-        return drive(ws.receive_text())
+        return drive(ws.receive_text(), cancel)
     if op == "receive_bytes":
-        return drive(ws.receive_bytes())
+        return drive(ws.receive_bytes(), cancel)
     if op in ("iter_text", "iter_bytes"):
         agen = ws.iter_text() if op == "iter_text" else ws.iter_bytes()
         vals = []
         result = ("ok", vals)
         for _ in range(2):
-            out = drive(agen.__anext__())
+            out = drive(agen.__anext__(), cancel)
             if out[0] == "ok":
                 vals.append(out[1])
             elif out[0] == "raise" and isinstance(out[1], StopAsyncIteration):
@@ -250,16 +383,21 @@ def real_step(ws, op):
                 break
         drive(agen.aclose())
         return result
-    if op == "send_text":
-        return drive(ws.send_text("hello"))
-    if op == "send_bytes":
-        return drive(ws.send_bytes(b"hello"))
-    if op == "close":
-        return drive(ws.close())
-    if op == "close_code":
-        return drive(ws.close(4000))
+    if op in ("itT_next", "itB_next"):
+        if op not in its:
+            its[op] = ws.iter_text() if op == "itT_next" else ws.iter_bytes()
+        # always cancelled the way a task is: closing the __anext__ awaitable would leave the generator "running"
+        out = drive(its[op].__anext__(), "throw")
+        if out[0] == "raise" and isinstance(out[1], StopAsyncIteration):
+            return ("ok", STOP)
+        return out
+    if op in SEND_PAYLOAD:
+        data = SEND_PAYLOAD[op]
+        return drive(ws.send_text(data["text"]) if "text" in data else ws.send_bytes(data["bytes"]), cancel)
+    if op in CLOSE_ARGS:
+        return drive(ws.close(*CLOSE_ARGS[op]), cancel)
     if op in RAW:
-        return drive(ws.send(dict(RAW[op])))
+        return drive(ws.send(dict(RAW[op])), cancel)
     raise core.HarnessError(op)
 
 
@@ -282,24 +420,48 @@ def app_sequence_legal(forwarded):
     return None
 
 
+class _Where:
+    __slots__ = ("i", "op", "spec", "ops")
+
+    def __init__(self, i, op, spec, ops):
+        self.i, self.op, self.spec, self.ops = i, op, spec, ops
+
+    def __format__(self, _fmt):
+        return f"step {self.i} {self.op}: script={self.spec!r} ops={self.ops!r}"
+
+
+def _ord(state):
+    if state is WebSocketState.CONNECTING:
+        return 0
+    if state is WebSocketState.CONNECTED:
+        return 1
+    if state is WebSocketState.DISCONNECTED:
+        return 2
+    raise core.HarnessError(f"unknown state {state!r}")
+
+
 def oracle(case) -> Result:
     r = Result()
-    script = build_script(case["script"])
+    spec = case["script"]
+    script = build_script(spec)
     ops = case["ops"]
-    server = Server(script)
-    server.fail_close = bool(case["script"].get("fail_close"))
-    model = Model(script, server.fail_close)
+    cancel = spec.get("cancel", "close")
+    server = Server(script, spec)
+    model = Model(script, spec)
     scope = {"type": "websocket", "path": "/", "headers": [], "subprotocols": ["sp"]}
     ws = WebSocket(scope, server.receive, server.send)
+    its = {}
     illegal_seen = False
-    states = [(ORDER[ws.client_state], ORDER[ws.application_state])]
-    ctx = f"script={case['script']!r} ops={ops!r}"
+    fault_seen = False
+    cancelled_at = None
+    states = [(_ord(ws.client_state), _ord(ws.application_state))]
+    if states[0] != (0, 0):
+        r.fail("C11:state-misreported:initial", f"a new wrapper reports (client, application) state {states[0]}")
     for i, op in enumerate(ops):
         fwd_before = len(server.forwarded)
-        delivered_before = len(server.delivered)
         want = model.step(op)
-        got = real_step(ws, op)
-        where = f"step {i} {op}: {ctx}"
+        got = real_step(ws, op, cancel, its)
+        where = _Where(i, op, spec, ops)  # formatted only when a failure is reported
         # clause 1: forwarded sequence legal (independent of the model)
         bad = app_sequence_legal(server.forwarded)
         if bad:
@@ -308,7 +470,7 @@ def oracle(case) -> Result:
         if server.late_receive:
             r.fail(f"C11:receive-after-disconnect:{op}", f"{where}: server receive() called after the disconnect was delivered")
         # clause 6
-        cur = (ORDER[ws.client_state], ORDER[ws.application_state])
+        cur = (_ord(ws.client_state), _ord(ws.application_state))
         if cur[0] < states[-1][0] or cur[1] < states[-1][1]:
             r.fail(f"C11:state-went-back:{op}", f"{where}: states {states[-1]} -> {cur}")
         states.append(cur)
@@ -323,6 +485,7 @@ def oracle(case) -> Result:
             )
         # model comparison
         if want["outcome"] == "fault":
+            fault_seen = True
             if got[0] != "raise" or not isinstance(got[1], OSError):
                 r.fail(f"C11:injected-fault-swallowed:{op}", f"{where}: outcome {got[0]} {got[1]!r}")
         elif want["outcome"] == "raise":
@@ -333,12 +496,11 @@ def oracle(case) -> Result:
                 r.fail(f"C11:illegal-call-forwarded:{op}", f"{where}: forwarded {server.forwarded[fwd_before:]!r}")
             if want.get("exc") is not None and got[0] == "raise" and not isinstance(got[1], want["exc"]):
                 r.fail(f"C11:wrong-exception:{op}", f"{where}: raised {got[1]!r}, expected {want['exc'].__name__}")
-        elif want["outcome"] == "any":
-            if got[0] == "blocked":
+        elif want["outcome"] in ("any", "anyblock"):
+            if got[0] == "blocked" and want["outcome"] == "any":
                 r.fail(f"C11:unexpected-block:{op}", f"{where}")
             # resynchronise the model with what the wrapper consumed
-            model.pos = server.pos
-            model.forwarded = [dict(m) for m in server.forwarded]
+            model.resync(server)
         else:
             if got[0] != want["outcome"]:
                 r.fail(f"C11:outcome:{op}", f"{where}: outcome {got[0]} {got[1]!r}, reference says {want['outcome']}")
@@ -347,25 +509,35 @@ def oracle(case) -> Result:
                 if op == "receive":
                     if got[1] != want["value"]:
                         r.fail(f"C11:payload:{op}", f"{where}: returned {got[1]!r}, delivered {want['value']!r}")
-                elif got[1] != want["value"]:
+                elif got[1] != want["value"] or type(got[1]) is not type(want["value"]):
                     r.fail(f"C11:payload:{op}", f"{where}: returned {got[1]!r}, delivered frames {want['value']!r}")
-        if want["outcome"] != "any":
+        if want["outcome"] not in ("any", "anyblock"):
             if server.forwarded != model.forwarded:
                 r.fail(f"C11:forwarded-differs:{op}", f"{where}: forwarded {server.forwarded!r}, reference {model.forwarded!r}")
             if server.pos != model.pos:
                 r.fail(f"C11:consumption-differs:{op}", f"{where}: consumed {server.pos} server events, reference {model.pos}")
-        if got[0] == "blocked" or r.failures:
+        if r.failures:
             break
-        _ = delivered_before
+        if got[0] == "blocked" and cancelled_at is None:
+            # the cancelled call is over; the history goes on (a later receive meets the next scripted event, or
+            # parks again at the end of the script)
+            cancelled_at = i
+    for agen in its.values():
+        drive(agen.aclose())
     disc_early = server.disconnect_delivered and len(ops) > 0
-    r.nontrivial = illegal_seen or (disc_early and server.pos == len(script) and len(ops) >= 2)
-    r.label(f"len={len(ops)}", f"end={case['script']['end']}")
+    went_on = cancelled_at is not None and cancelled_at < len(ops) - 1
+    r.nontrivial = illegal_seen or (disc_early and server.pos == len(script) and len(ops) >= 2) or (went_on and server.pos > 1) or fault_seen
+    r.label(f"len={len(ops)}", f"end={spec['end']}")
     if illegal_seen:
         r.label("has-illegal-call")
     if server.disconnect_delivered:
         r.label("disconnect-delivered")
-    r.key = (case["script"]["frames"], case["script"]["end"], bool(case["script"].get("fail_close")), tuple(ops))
-    if case["script"].get("fail_close"):
+    if went_on:
+        r.label("continued-after-cancelled-call")
+    if fault_seen:
+        r.label("send-fault")
+    r.key = (tuple(spec.items()), tuple(ops))
+    if spec.get("fail_close"):
         r.label("close-frame-fault")
     return r
 
@@ -429,6 +601,8 @@ def make_response(kind):
         from baize.asgi import FileResponse
 
         return FileResponse(path)
+    if kind == "none":
+        return None
     if kind == "stream":
 
         async def gen():
@@ -436,28 +610,52 @@ def make_response(kind):
             yield b"b"
 
         return StreamResponse(gen(), 403)
+    if kind == "slowstream":
+        # gives way to the event loop between chunks, so that the response's disconnect listener runs
+
+        async def slow():
+            for i in range(6):
+                await asyncio.sleep(0)
+                yield b"chunk %d" % i
+
+        return StreamResponse(slow(), 403)
     raise core.HarnessError(kind)
 
 
 def oracle_denial(case) -> Result:
     r = Result()
     via, kind, ext = case["via"], case["response"], case["extension"]
+    recv = case.get("recv", "idle")
     sent = []
+    ran = []
+    rx = {"calls": 0, "pos": 0, "disconnect_delivered": False, "late": 0}
 
     async def send(m):
         sent.append(dict(m))
 
     async def receive():
+        rx["calls"] += 1
+        if rx["disconnect_delivered"]:
+            rx["late"] += 1
+        if recv == "disconnect" and rx["pos"] < 2:
+            # the client gives up while the denial response is still being streamed
+            rx["pos"] += 1
+            if rx["pos"] == 1:
+                return {"type": "websocket.connect"}
+            rx["disconnect_delivered"] = True
+            return {"type": "websocket.disconnect", "code": 1001}
         await asyncio.sleep(3600)
 
     if via == "session-http":
         scope = {"type": "http", "method": "GET", "path": "/", "headers": [], "query_string": b""}
 
         @websocket_session
-        async def app(ws):  # pragma: no cover - must not run
-            raise core.HarnessError("websocket view ran for an http scope")
+        async def app(ws):
+            ran.append("websocket view")
 
         _run(app(scope, receive, send))
+        if ran:
+            r.fail("C11:denial:session-http:view-ran", f"the websocket view ran for an http scope; sent {sent!r}")
         types = [e.get("type") for e in sent]
         if types[:1] != ["http.response.start"] or sent[0].get("status") != 404 or types[1:] != ["http.response.body"] or sent[1].get("more_body"):
             r.fail("C11:denial:session-http", f"websocket_session on http scope sent {sent!r}")
@@ -465,7 +663,11 @@ def oracle_denial(case) -> Result:
         r.nontrivial = True
         return r
     scope = {"type": "websocket", "path": "/", "headers": [], "subprotocols": [], "method": "GET"}
-    if ext:
+    if ext == "other":
+        # extensions on offer, but not the denial-response one
+        scope["extensions"] = {"tls": {}, "http.response.pathsend": {}}
+        ext = False
+    elif ext:
         scope["extensions"] = {"websocket.http.response": {}}
     if kind == "file" and ext:
         scope["extensions"]["http.response.zerocopysend"] = {}
@@ -474,18 +676,23 @@ def oracle_denial(case) -> Result:
     else:
 
         @request_response
-        async def app(request):  # pragma: no cover - must not run
-            raise core.HarnessError("http view ran for a websocket scope")
+        async def app(request):
+            ran.append("http view")
+            return PlainTextResponse("from the http view")
 
     raised = None
     try:
         _run(app(scope, receive, send))
     except (ValueError, OSError) as exc:
         raised = exc  # an event that cannot be expressed as a denial response may be refused ...
+    if ran:
+        r.fail(f"C11:denial:{via}:view-ran", f"{case!r}: the http view ran for a websocket scope; events {sent!r}")
     foreign = [e.get("type") for e in sent if not str(e.get("type", "")).startswith("websocket.")]
     if foreign:
         # ... but it must never be forwarded to the websocket server as it is
         r.fail(f"C11:denial:{via}:foreign-event-forwarded", f"{case!r}: forwarded {foreign!r} to a websocket connection; events {sent!r}")
+    if rx["late"]:
+        r.fail(f"C11:denial:{via}:receive-after-disconnect", f"{case!r}: {rx['late']} receive call(s) after the disconnect was delivered")
     import os as _os
 
     while _TMP:
@@ -493,11 +700,18 @@ def oracle_denial(case) -> Result:
             _os.unlink(_TMP.pop())
         except OSError:
             pass
-    bad = None if (raised is not None and kind == "file") else denial_sequence_legal(sent, ext)
+    if kind == "none":
+        # no response object to send: the only way to refuse is a close, whatever the server offers
+        bad = denial_sequence_legal(sent, False)
+    else:
+        bad = None if (raised is not None and kind == "file") else denial_sequence_legal(sent, ext)
     if bad:
         r.fail(f"C11:denial:{via}:{'ext' if ext else 'noext'}", f"{case!r}: {bad}; events {sent!r}")
-    r.label(f"via={via}", f"ext={ext}", f"resp={kind}")
-    r.nontrivial = bool(ext) or kind == "stream"
+    r.label(f"via={via}", f"ext={case['extension']}", f"resp={kind}", f"recv={recv}")
+    if recv == "disconnect":
+        r.nontrivial = rx["disconnect_delivered"]
+    else:
+        r.nontrivial = bool(ext) or kind == "stream"
     return r
 
 
@@ -528,11 +742,14 @@ async def _await_op(ws, op):
 def oracle_session(case) -> Result:
     """The same call sequences issued from inside a `websocket_session` view, where the first call
     that raises ends the view with that exception: whatever the shortcut itself does around the view,
-    the events that reach the server must still form a legal application sequence."""
+    the events that reach the server must still form a legal application sequence.  A view that parks
+    (nothing more to receive) is cancelled - the coroutine is closed, or CancelledError is thrown into
+    it like a server shutting down does."""
     r = Result()
     script = build_script(case["script"])
     ops = case["ops"]
-    server = Server(script)
+    cancel = case.get("cancel", "close")
+    server = Server(script, case["script"])
     ran = []
 
     @websocket_session
@@ -542,19 +759,22 @@ def oracle_session(case) -> Result:
             await _await_op(ws, op)
 
     scope = {"type": "websocket", "path": "/", "headers": [], "subprotocols": ["sp"]}
-    out = drive(app(scope, server.receive, server.send))
-    ctx = f"script={case['script']!r} ops={ops!r} (view ended: {out[0]}{' ' + type(out[1]).__name__ if out[0] == 'raise' else ''} after {ran!r})"
+    out = drive(app(scope, server.receive, server.send), cancel)
+    ctx = f"script={case['script']!r} cancel={cancel} ops={ops!r} (view ended: {out[0]}{' ' + type(out[1]).__name__ if out[0] == 'raise' else ''} after {ran!r})"
     bad = app_sequence_legal(server.forwarded)
     if bad:
         r.fail("C11:session:illegal-forwarded-sequence", f"{ctx}: {bad}; forwarded {server.forwarded!r}")
     if server.late_receive:
         r.fail("C11:session:receive-after-disconnect", f"{ctx}: receive issued after the disconnect was delivered")
-    r.nontrivial = out[0] == "raise"
-    r.label(f"end={out[0]}", f"len={len(ops)}")
+    r.nontrivial = out[0] == "raise" or (out[0] == "blocked" and cancel == "throw" and bool(server.forwarded))
+    r.label(f"end={out[0]}", f"len={len(ops)}", f"cancel={cancel}")
     return r
 
 
-SUBS = {"exh": oracle, "long": oracle, "guided": oracle, "denial": oracle_denial, "session": oracle_session}
+SUBS = {
+    "exh": oracle, "long": oracle, "guided": oracle, "ext": oracle, "iters": oracle, "guided2": oracle,
+    "denial": oracle_denial, "session": oracle_session,
+}
 
 
 def scripts(maxframes):
@@ -567,24 +787,94 @@ def scripts(maxframes):
         yield {"frames": fr, "end": "silence", "fail_close": True}
 
 
-def exh_shard(rec, k, nshards, maxlen, maxframes):
+def ext_scripts(thorough=False):
+    """Server scripts outside the `exh` family."""
+    out = []
+    # empty frames and frames that carry both keys
+    for fr in ["t", "b", "U", "C", "u", "c"] + ["tT", "bB", "UC", "CU", "uT", "cB"]:
+        out.append({"frames": fr, "end": "disconnect"})
+    for fr in ("t", "C"):
+        out.append({"frames": fr, "end": "silence"})
+    # disconnect codes and reasons
+    out += [
+        {"frames": "", "end": "disconnect", "code": 1000, "reason": ""},
+        {"frames": "T", "end": "disconnect", "code": 1006},
+        {"frames": "", "end": "disconnect", "code": 1005, "reason": None},
+        {"frames": "B", "end": "disconnect", "code": 4000, "reason": "bye"},
+    ]
+    # receive calls that park and are cancelled; the next call goes on
+    for cancel in ("throw", "close"):
+        out += [
+            {"frames": "T", "end": "disconnect", "park_connect": True, "cancel": cancel},
+            {"frames": ".T", "end": "disconnect", "cancel": cancel},
+            {"frames": "T.", "end": "disconnect", "cancel": cancel},
+        ]
+    out += [
+        {"frames": "", "end": "disconnect", "park_connect": True, "cancel": "throw"},
+        {"frames": ".", "end": "disconnect", "cancel": "throw"},
+        {"frames": "B.B", "end": "silence", "cancel": "throw"},
+    ]
+    # the server's send fails (raises / never completes and the caller is cancelled) on the n-th forwarded event
+    for n in (0, 1, 2):
+        out += [
+            {"frames": "T", "end": "disconnect", "fail_at": n, "fail_how": "raise"},
+            {"frames": "", "end": "silence", "fail_at": n, "fail_how": "park", "cancel": "close"},
+            {"frames": "T", "end": "disconnect", "fail_at": n, "fail_how": "park", "cancel": "throw"},
+        ]
+    _ = thorough  # the thorough tier spends its budget on longer histories over the same scripts
+    return out
+
+
+def iter_scripts(thorough=False):
+    out = [
+        {"frames": "TT", "end": "disconnect"},
+        {"frames": "TB", "end": "disconnect"},
+        {"frames": "BB", "end": "disconnect"},
+        {"frames": "T", "end": "silence"},
+        {"frames": "", "end": "disconnect"},
+        {"frames": "T.T", "end": "disconnect", "cancel": "throw"},
+        {"frames": "tT", "end": "disconnect"},
+        {"frames": "TT", "end": "silence", "fail_close": True},
+    ]
+    if thorough:
+        out += [{"frames": "".join(fr), "end": end} for fr in itertools.product("TB", repeat=3) for end in ("disconnect", "silence")]
+        out += [{"frames": "".join(fr), "end": "disconnect", "cancel": "throw"} for fr in itertools.product("TBt.", repeat=3)]
+    return out
+
+
+ENUMS = {
+    # sub-check -> (operations, scripts(thorough))
+    "ext": (EXT_OPS, ext_scripts),
+    "iters": (ITER_OPS, iter_scripts),
+}
+
+
+def _enumerate(rec, sub, k, nshards, alphabet, scr, maxlen):
     g = core.guarded(oracle)
-    scr = list(scripts(maxframes))
     i = 0
     for n in range(0, maxlen + 1):
-        for seq in itertools.product(OPS, repeat=n):
+        for seq in itertools.product(alphabet, repeat=n):
             i += 1
             if i % nshards != k:
                 continue
             for s in scr:
                 case = {"script": s, "ops": list(seq)}
                 res = g(case)
-                rec.count("exh", case, res)
+                rec.count(sub, case, res)
                 new, old = rec.split(res)
                 rec.note_known(old)
                 for f in new:
-                    rec.add_violation("exh", f, case)
+                    rec.add_violation(sub, f, case)
                     rec.skip.add(f.bucket)
+
+
+def exh_shard(rec, k, nshards, maxlen, maxframes):
+    _enumerate(rec, "exh", k, nshards, OPS, list(scripts(maxframes)), maxlen)
+
+
+def enum_shard(rec, k, nshards, sub, maxlen):
+    alphabet, scr = ENUMS[sub]
+    _enumerate(rec, sub, k, nshards, alphabet, scr(rec.tier != "quick"), maxlen)
 
 
 def long_case():
@@ -620,34 +910,91 @@ def guided_case():
     )
 
 
+def guided2_case():
+    """Guided histories over the extended operations and the whole extended script family."""
+    pre = st.sampled_from([["accept"], ["accept"], ["receive", "accept"], ["raw_accept"], ["receive"], []])
+    body = st.lists(
+        st.sampled_from(
+            ["receive", "receive_text", "receive_bytes", "iter_text", "iter_bytes", "itT_next", "itB_next"] * 4
+            + ["send_text", "send_bytes", "send_text_empty", "send_bytes_empty"] * 2
+            + ["close", "close_code", "close_reason", "raw_close", "raw_send", "accept", "raw_accept", "raw_garbage"]
+            + ["raw_denial_start", "raw_denial_body", "raw_http"]
+        ),
+        min_size=1,
+        max_size=12,
+    )
+    optional = {
+        "park_connect": st.booleans(),
+        "code": st.sampled_from([1000, 1001, 1005, 1006, 1011, 4000]),
+        "reason": st.sampled_from([None, "", "bye"]),
+        "cancel": st.sampled_from(["close", "throw"]),
+        "fail_close": st.booleans(),
+        "fail_at": st.integers(0, 5),
+        "fail_how": st.sampled_from(["raise", "park"]),
+    }
+    script = st.fixed_dictionaries(
+        {"frames": st.text(alphabet="TTBBtbUCuc.", max_size=6), "end": st.sampled_from(["disconnect", "disconnect", "silence"])},
+        optional=optional,
+    )
+    return st.fixed_dictionaries({"script": script, "ops": st.builds(lambda a, b: a + b, pre, body)})
+
+
 def denial_cases():
-    for kind in ("empty404", "plain", "json", "redirect", "stream", "file"):
-        for ext in (False, True):
+    for kind in ("empty404", "plain", "json", "redirect", "stream", "file", "none"):
+        for ext in (False, True, "other"):
             yield {"via": "denial", "response": kind, "extension": ext}
-    for ext in (False, True):
+    for ext in (False, True, "other"):
         yield {"via": "request_response", "response": "empty404", "extension": ext}
     yield {"via": "session-http", "response": "empty404", "extension": False}
+    # the client disconnects while the denial response is being streamed
+    for kind in ("slowstream", "plain"):
+        for ext in (False, True):
+            yield {"via": "denial", "response": kind, "extension": ext, "recv": "disconnect"}
+    yield {"via": "request_response", "response": "empty404", "extension": True, "recv": "disconnect"}
 
 
 def session_cases(maxlen):
     ops = ["accept", "receive", "receive_text", "send_text", "close", "close_code", "raw_close", "raw_send", "raw_garbage"]
-    for spec in ({"frames": "", "end": "disconnect"}, {"frames": "T", "end": "silence"}, {"frames": "TB", "end": "disconnect"}):
+    specs = ({"frames": "", "end": "disconnect"}, {"frames": "T", "end": "silence"}, {"frames": "TB", "end": "disconnect"})
+    for spec in specs:
+        for n in range(1, maxlen + 1):
+            for combo in itertools.product(ops, repeat=n):
+                yield {"script": spec, "ops": list(combo)}
+    # views that park and are cancelled by CancelledError (a server shutting down, a timeout around the view)
+    for spec in ({"frames": "", "end": "silence"}, {"frames": "T", "end": "silence"}, {"frames": ".", "end": "disconnect"}):
+        for n in range(1, maxlen + 1):
+            for combo in itertools.product(ops, repeat=n):
+                yield {"script": spec, "ops": list(combo), "cancel": "throw"}
+    # ... or that fail because the server's send raises on the accept / the first data frame
+    for spec in ({"frames": "T", "end": "disconnect", "fail_at": 0}, {"frames": "T", "end": "disconnect", "fail_at": 1}):
         for n in range(1, maxlen + 1):
             for combo in itertools.product(ops, repeat=n):
                 yield {"script": spec, "ops": list(combo)}
 
 
+def _want(rec, sub):
+    return rec.only is None or sub in rec.only
+
+
 def run(rec, only=None):
     quick = rec.tier == "quick"
-    if quick:
-        core.run_sharded(rec, exh_shard, 16, core.ncpu(), (4, 2))
-    else:
-        core.run_sharded(rec, exh_shard, 128, core.ncpu(), (5, 3))
+    if _want(rec, "exh"):
+        if quick:
+            core.run_sharded(rec, exh_shard, 16, core.ncpu(), (4, 2))
+        else:
+            core.run_sharded(rec, exh_shard, 128, core.ncpu(), (5, 3))
     rec.exhaustive["exh"] = True
+    if _want(rec, "ext"):
+        core.run_sharded(rec, enum_shard, 16 if quick else 128, core.ncpu(), ("ext", 3 if quick else 4))
+    rec.exhaustive["ext"] = True
+    if _want(rec, "iters"):
+        core.run_sharded(rec, enum_shard, 16 if quick else 64, core.ncpu(), ("iters", 4 if quick else 5))
+    rec.exhaustive["iters"] = True
     core.drive_hypothesis(rec, "long", long_case(), oracle, 2000 if quick else 50000)
     core.drive_hypothesis(rec, "guided", guided_case(), oracle, 2000 if quick else 50000, seed_offset=5)
+    core.drive_hypothesis(rec, "guided2", guided2_case(), oracle, 2000 if quick else 50000, seed_offset=9)
     core.drive_cases(rec, "denial", denial_cases(), oracle_denial)
     core.drive_cases(rec, "session", session_cases(3 if quick else 4), oracle_session, sample=True)
     rec.exhaustive["session"] = True
-    rec.exhaustive["long"] = rec.exhaustive["guided"] = False
+    rec.exhaustive["long"] = rec.exhaustive["guided"] = rec.exhaustive["guided2"] = False
     rec.exhaustive["denial"] = True
